@@ -10,7 +10,7 @@ SPEC = {
     'bounds': {'quick': 'accepted tables of <= 2 hits on 2 ceilometers (any times incl. coincident, any heights, type 1..2) x renamings '
                         '{swap, names sorting differently as strings (10 < 9), prefix names (PO1/PO10), empty / blank names} x parameter families with symbolic '
                         'look-back / percentile / fall-back threshold and an exclusion list',
-               'thorough': '3 hits'},
+               'thorough': 'every renaming x 4 parameter families at 2 hits'},
     'outside': 'renamings other than the enumerated ones (names are concrete strings; their assignment to hits and everything else is '
                'symbolic); more ceilometers than 2; non-string names',
     'budget_s': {'quick': 1200, 'thorough': 3600},
@@ -53,7 +53,7 @@ def h_rename(E, N, pvar, ren):
 
 HARNESSES = [
     H('H-rename', h_rename, quick=[(2, 0, 0), (2, 1, 0), (2, 1, 1), (2, 5, 2), (2, 1, 3), (2, 5, 4)],
-      thorough=[(2, p, r) for p in (0, 1, 5) for r in range(5)] + [(3, 1, 0), (3, 5, 1)], float_model='R', scripted=True,
+      thorough=[(2, p, r) for p in (0, 1, 5, 6) for r in range(5)], float_model='R', scripted=True,
       cover=['coincident time stamps on the two ceilometers', 'both ceilometers present'],
       assumptions=['utils.check_data_consistency replaced by a stand-in on the accepted table (C15)'],
       doc='whole chain twice under two namings of the ceilometers: identical results'),
